@@ -745,7 +745,7 @@ func main() {
 		}
 		for _, k := range []string{"bind_ok", "TypeError_missing", "TypeError_surplus", "TypeError_duplicate", "TypeError_unexpected"} {
 			if stats[k] == 0 && sigLimit == 0 {
-				common.Inconclusive("property=C04 design check is vacuous: no pair with %s", k)
+				common.Vacuous("property=C04 design check is vacuous: no pair with %s", k)
 			}
 		}
 		rep.Extra["design_check"] = map[string]interface{}{"module": "PyCallMC", "signatures": nsigs, "call_shapes": ncalls, "pairs_checked_BindA_eq_BindD_and_conserved": stats["pairs"],
@@ -887,7 +887,7 @@ func main() {
 	if env.Replay == "" {
 		for k, n := range map[string]int64{"bound": ck.expOk, "TypeError": ck.expErr} {
 			if n == 0 {
-				common.Inconclusive("property=C04 vacuous run: no case with expected outcome %s", k)
+				common.Vacuous("property=C04 vacuous run: no case with expected outcome %s", k)
 			}
 		}
 	}
